@@ -39,7 +39,7 @@ Fixpoint ws_comment_newline_f (fuel : nat) (start : N) (i : input) : res unit :=
         end in
       match rest i1 with
       | b :: _ =>
-        if byte_eqb b x23 then step (comment ;;; newline)
+        if byte_eqb b x23 then step (comment ;;; context newline)
         else if byte_eqb b x0a then step newline
         else if byte_eqb b x0d then step newline
         else Ok tt i1
